@@ -426,17 +426,55 @@ theorem chainReload_results {ρ : Type} (eq : ρ → ρ → Bool) (next : Nat) (
     rw [chain_split now _ now1 h1, List.map_drop]
   · rfl
 
-/-- what is in force afterwards is what a reload *after* the request would have built (controllers are shared by reference,
-    and the reload does not look at timestamps: `reload_map`).  Stated for controllers with distinct identities below `next`;
-    validated by the correspondence runs (the generator's mirror relies on it), not proved here. -/
-def chainReload_ctls_statement : Prop :=
-  ∀ {ρ : Type} (eq : ρ → ρ → Bool) (next : Nat) (now : Int) (ctls : List (Ctl ρ)) (par : ρ → Int × Req) (rules : List ρ),
-    (ctls.map (·.id)).Nodup → (∀ c ∈ ctls, c.id < next) →
-    (chainReload eq next now ctls par (some rules)).2.2 = true →
+/-- the list fact behind `chainReload_ctls`: updating, by identity, the controllers `ctls.drop k` of what a reload built from
+    `ctls` (with timestamps `H`) with the timestamps `B` is the reload of `ctls` with `H` on the first `k` and `B` on the rest -/
+theorem reload_setLast_drop {ρ : Type} (eq : ρ → ρ → Bool) (next : Nat) (ctls : List (Ctl ρ)) (rules : List ρ)
+    (H B : List Int) (k : Nat) (hn : (ctls.map (·.id)).Nodup) (hlt : ∀ c ∈ ctls, c.id < next)
+    (hH : H.length = ctls.length) (hB : B.length = (ctls.drop k).length) :
+    (reload eq next (zipLast ctls H) rules).map (Ctl.setLast (((ctls.drop k).map (·.id)).zip B)) =
+      reload eq next (zipLast ctls (H.take k ++ B)) rules := by
+  have hfresh : ∀ n r, next ≤ n →
+      Ctl.setLast (((ctls.drop k).map (·.id)).zip B) (⟨n, r, 0⟩ : Ctl ρ) = ⟨n, r, 0⟩ := by
+    intro n r hle
+    apply setLast_of_not_mem
+    simp only [List.mem_map, not_exists, not_and]
+    intro c hc he
+    have := hlt c (List.mem_of_mem_drop hc)
+    omega
+  rw [← reload_map eq _ (setLast_rule _) next hfresh]
+  congr 1
+  -- split the controllers into the visited ones and the rest
+  have hlen : (ctls.take k).length = (H.take k).length := by simp [List.length_take, hH]
+  have e1 : zipLast ctls H = zipLast (ctls.take k) (H.take k) ++ zipLast (ctls.drop k) (H.drop k) := by
+    rw [← zipLast_append _ _ _ _ hlen, List.take_append_drop, List.take_append_drop]
+  have e2 : zipLast ctls (H.take k ++ B) = zipLast (ctls.take k) (H.take k) ++ zipLast (ctls.drop k) B := by
+    rw [← zipLast_append _ _ _ _ hlen, List.take_append_drop]
+  have hnd : ((ctls.take k).map (·.id) ++ (ctls.drop k).map (·.id)).Nodup := by
+    rw [← List.map_append, List.take_append_drop]; exact hn
+  rw [e1, e2, List.map_append]
+  congr 1
+  · apply map_setLast_of_disjoint
+    intro x hx hmem
+    exact (List.nodup_append.mp hnd).2.2 _ (mem_zipLast_id _ _ x hx) _ hmem rfl
+  · exact map_setLast_self _ _ _ (List.nodup_append.mp hnd).2.1 (by simp [List.length_drop, hH]) hB
+
+/-- **What is in force after a request that slept through a reload is what a reload *after* the request would have built**
+    (controllers are shared by reference, and the reload does not look at timestamps).  For controllers with distinct
+    identities below `next` — which the driver maintains (`St.next`) — and a request that did sleep (`.2.2 = true`). -/
+theorem chainReload_ctls {ρ : Type} (eq : ρ → ρ → Bool) (next : Nat) (now : Int) (ctls : List (Ctl ρ)) (par : ρ → Int × Req)
+    (rules : List ρ) (hn : (ctls.map (·.id)).Nodup) (hlt : ∀ c ∈ ctls, c.id < next)
+    (hf : (chainReload eq next now ctls par (some rules)).2.2 = true) :
     (chainReload eq next now ctls par (some rules)).1 =
-      reload eq next
-        ((ctls.zip (chain now (ctls.map fun c => ((par c.rule).1, c.last, (par c.rule).2))).1).map fun (c, l) => { c with last := l })
-        rules
+      reload eq next (zipLast ctls (chain now (ctls.map fun c => ((par c.rule).1, c.last, (par c.rule).2))).1) rules := by
+  cases hs : (chainHead now (ctls.map fun c => ((par c.rule).1, c.last, (par c.rule).2))).2.2 with
+  | none => simp [chainReload, hs] at hf
+  | some now1 =>
+    have hsplit := chain_split now _ now1 hs
+    rw [hsplit]
+    simp only [chainReload, hs]
+    rw [← List.map_drop]
+    exact reload_setLast_drop eq next ctls rules _ _ _ hn hlt
+      (by rw [chainHead_length, List.length_map]) (by rw [chain_length, List.length_map])
 
 /-- the demo of the seeded change: three rules, the request sleeps 90 for rule 1, meanwhile the same rules plus one more are
     loaded; it is still rejected by rule 2, and rule 2's controller (identity 1) is the one in force afterwards -/
@@ -444,6 +482,12 @@ example :
     let r := chainReload (fun (a b : Nat) => a == b) 3 10 [⟨0, 0, 0⟩, ⟨1, 1, 0⟩, ⟨2, 2, 0⟩]
       (fun r => if r = 0 then (1000, .norm 100) else if r = 1 then (0, .norm 1000) else (1000, .norm 1)) (some [0, 1, 2, 3])
     r.2.1 = [.wait 90, .block] ∧ r.1.map (·.id) = [0, 1, 2, 6] ∧ r.1.map (·.last) = [100, 0, 0, 0] := by decide
+
+/-- the hypotheses of `chainReload_ctls` are satisfiable (the same demo) -/
+example :=
+  chainReload_ctls (fun (a b : Nat) => a == b) 3 10 [⟨0, 0, 0⟩, ⟨1, 1, 0⟩, ⟨2, 2, 0⟩]
+    (fun r => if r = 0 then (1000, .norm 100) else if r = 1 then (0, .norm 1000) else (1000, .norm 1)) [0, 1, 2, 3]
+    (by decide) (by decide) (by decide)
 
 example : chain 0 [(1000, 0, .norm 100), (0, 0, .norm 300)] = ([100, 0], [.wait 100, .block]) := by decide
 
